@@ -1,1 +1,954 @@
-fn main() { unimplemented!() }
+//! C08 — the `memcpy`, `memmove`, `memset`, `memcmp`, `bcmp` symbols that tiny-start gives
+//! to no-libc binaries behave as the C standard says for every length, alignment and
+//! overlap, and never write outside the destination.
+//!
+//! Engine E4 (bounded-exhaustive enumeration) on the REAL code: the repository's
+//! `tiny-start/src/symbols/mem.rs` is compiled verbatim into the private shared object
+//! `libmemsyms.so` (crate `memsyms`), which is `dlopen`ed with `RTLD_LOCAL`; the five
+//! functions are taken with `dlsym` on that handle.  The harness itself keeps libc's
+//! `memcpy` & co., so a broken function under test cannot corrupt the checker.
+//!
+//! Oracle per call: destination == volatile byte-loop reference, everything around the
+//! destination (>= 64 bytes on both sides, or an inaccessible page) untouched, source
+//! untouched where it is not destination, returned pointer == dest; for memcmp the sign,
+//! for bcmp the zero-ness, of a volatile byte-loop comparison.
+
+use common::*;
+use serde_json::{json, Value};
+use std::ffi::{c_int, c_void, CStr, CString};
+use std::ptr::{read_volatile, write_volatile};
+
+type CopyFn = unsafe extern "C" fn(*mut u8, *const u8, usize) -> *mut u8;
+type SetFn = unsafe extern "C" fn(*mut u8, c_int, usize) -> *mut u8;
+type CmpFn = unsafe extern "C" fn(*const u8, *const u8, usize) -> c_int;
+
+/// Values of mem.rs as read on 2026-10-02; `source_constants` re-derives the threshold
+/// from the source that was actually compiled and widens the window if it grew.
+const WORD: usize = 8;
+const THRESHOLD: usize = 16;
+const RED: usize = 64;
+const REPO_SRC: &str = "/repo/tiny-start/src/symbols/mem.rs";
+const LADDER: &[usize] = &[63, 64, 65, 127, 128, 129, 255, 256, 257, 4095, 4096, 4097, 65535, 65536, 65537, 1 << 20];
+const FILLS_QUICK: &[u8] = &[0, 1, 0x7f, 0x80, 0xff];
+/// (byte in first operand, byte in second operand) at the first differing position
+const PAIRS: &[(u8, u8)] = &[(0, 1), (0, 255), (127, 128), (255, 0)];
+
+// ---------------------------------------------------------------------------
+// loading the code under test
+
+#[derive(Clone, Copy)]
+struct Syms {
+    memcpy: CopyFn,
+    memmove: CopyFn,
+    memset: SetFn,
+    memcmp: CmpFn,
+    bcmp: CmpFn,
+}
+
+struct Loaded {
+    syms: Syms,
+    so_path: String,
+    src_path: String,
+    notes: Vec<String>,
+}
+
+fn so_candidates() -> Vec<String> {
+    let mut v = Vec::new();
+    if let Ok(p) = std::env::var("MEMSYMS_SO") {
+        v.push(p);
+    }
+    if let Ok(exe) = std::env::current_exe() {
+        if let Some(dir) = exe.parent() {
+            // `cargo build -p h-mem` (memsyms is a dependency) refreshes deps/libmemsyms.so;
+            // the copy next to the executable exists only after `cargo build -p memsyms`
+            // and may be older, so it is the fallback.
+            v.push(dir.join("deps/libmemsyms.so").to_string_lossy().into_owned());
+            v.push(dir.join("libmemsyms.so").to_string_lossy().into_owned());
+        }
+    }
+    v
+}
+
+fn object_of(addr: *const c_void) -> String {
+    unsafe {
+        let mut info: libc::Dl_info = std::mem::zeroed();
+        if libc::dladdr(addr, &mut info) == 0 || info.dli_fname.is_null() {
+            return "?".into();
+        }
+        CStr::from_ptr(info.dli_fname).to_string_lossy().into_owned()
+    }
+}
+
+fn load() -> Loaded {
+    let cands = so_candidates();
+    let Some(path) = cands.iter().find(|p| std::path::Path::new(p).is_file()).cloned() else {
+        eprintln!("h-mem: libmemsyms.so not found (looked at {cands:?}); run `cargo build --offline -p h-mem`");
+        std::process::exit(2);
+    };
+    unsafe {
+        let cpath = CString::new(path.clone()).unwrap();
+        // RTLD_LOCAL: the object's `memcpy`... are NOT added to the global lookup scope.
+        let h = libc::dlopen(cpath.as_ptr(), libc::RTLD_NOW | libc::RTLD_LOCAL);
+        if h.is_null() {
+            eprintln!("h-mem: dlopen({path}) failed: {}", CStr::from_ptr(libc::dlerror()).to_string_lossy());
+            std::process::exit(2);
+        }
+        let mut notes = Vec::new();
+        let mut get = |name: &str| -> *mut c_void {
+            let c = CString::new(name).unwrap();
+            let p = libc::dlsym(h, c.as_ptr());
+            assert!(!p.is_null(), "symbol {name} missing from {path}");
+            let obj = object_of(p);
+            assert!(obj.contains("memsyms"), "{name} resolved to {obj}, not to the object under test");
+            // what the harness process itself calls under that name must stay libc's
+            let g = libc::dlsym(libc::RTLD_DEFAULT, c.as_ptr());
+            if !g.is_null() {
+                let gobj = object_of(g);
+                assert!(g != p && !gobj.contains("memsyms"), "global {name} is the code under test ({gobj})");
+                if name == "memcpy" {
+                    notes.push(format!("process-global memcpy lives in {gobj}; memcpy under test in {obj}"));
+                }
+            }
+            p
+        };
+        let syms = Syms {
+            memcpy: std::mem::transmute::<*mut c_void, CopyFn>(get("memcpy")),
+            memmove: std::mem::transmute::<*mut c_void, CopyFn>(get("memmove")),
+            memset: std::mem::transmute::<*mut c_void, SetFn>(get("memset")),
+            memcmp: std::mem::transmute::<*mut c_void, CmpFn>(get("memcmp")),
+            bcmp: std::mem::transmute::<*mut c_void, CmpFn>(get("bcmp")),
+        };
+        let src = get_src(h);
+        Loaded { syms, so_path: path, src_path: src, notes }
+    }
+}
+
+unsafe fn get_src(h: *mut c_void) -> String {
+    let p = libc::dlsym(h, c"VT_MEMSYMS_SRC".as_ptr());
+    if p.is_null() {
+        return "?".into();
+    }
+    CStr::from_ptr(p as *const libc::c_char).to_string_lossy().into_owned()
+}
+
+/// Largest byte count that `WORD_COPY_THRESHOLD` of the compiled source can evaluate to on
+/// this target (None: the constant was not found, the window cannot be justified).
+fn source_threshold(src_path: &str) -> Option<usize> {
+    let text = std::fs::read_to_string(src_path).ok()?;
+    let at = text.find("const WORD_COPY_THRESHOLD")?;
+    let item = &text[at..];
+    let item = &item[..item.find(';')?];
+    let item = item.replace("WORD_SIZE", &WORD.to_string());
+    // largest literal and largest product `a * b` occurring in the item
+    let toks: Vec<&str> = item.split(|c: char| !(c.is_ascii_alphanumeric() || c == '*' || c == '_')).filter(|t| !t.is_empty()).collect();
+    let mut best = 0usize;
+    for (i, t) in toks.iter().enumerate() {
+        if let Ok(v) = t.parse::<usize>() {
+            best = best.max(v);
+            if i >= 2 && toks[i - 1] == "*" {
+                if let Ok(u) = toks[i - 2].parse::<usize>() {
+                    best = best.max(u * v);
+                }
+            }
+        }
+    }
+    (best > 0).then_some(best)
+}
+
+// ---------------------------------------------------------------------------
+// operand placement
+
+/// Where an operand lies in its arena.
+#[derive(Clone, Copy, PartialEq, Debug)]
+enum P {
+    /// in the middle of accessible memory, `RED + m` bytes after a page start (misalignment m), canaries around it
+    Mid(usize),
+    /// last byte is the last accessible byte before a PROT_NONE page
+    End,
+    /// first byte is the first accessible byte after a PROT_NONE page
+    Start,
+}
+
+impl P {
+    fn name(self) -> &'static str {
+        match self {
+            P::Mid(_) => "mid",
+            P::End => "end",
+            P::Start => "start",
+        }
+    }
+    fn mis(self) -> usize {
+        match self {
+            P::Mid(m) => m,
+            _ => 0,
+        }
+    }
+    fn parse(name: &str, m: usize) -> P {
+        match name {
+            "end" => P::End,
+            "start" => P::Start,
+            _ => P::Mid(m & 15),
+        }
+    }
+}
+
+/// A checked window of an arena: the operand (or span) is `[off, off+n)` of it.
+#[derive(Clone, Copy)]
+struct Region {
+    base: *mut u8,
+    len: usize,
+    off: usize,
+}
+
+const SLACK: usize = RED + 16;
+
+fn locate(arena: &GuardArena, p: P, n: usize) -> Region {
+    let r = match p {
+        P::Mid(m) => Region { base: arena.start_ptr(), off: RED + m, len: RED + m + n + RED },
+        P::End => Region { base: unsafe { arena.end_ptr().sub(n + SLACK) }, off: SLACK, len: n + SLACK },
+        P::Start => Region { base: arena.start_ptr(), off: 0, len: n + SLACK },
+    };
+    assert!(r.len <= arena.capacity());
+    r
+}
+
+impl Region {
+    #[allow(clippy::mut_from_ref)]
+    fn bytes(&self) -> &'static mut [u8] {
+        unsafe { std::slice::from_raw_parts_mut(self.base, self.len) }
+    }
+    fn ptr(&self) -> *mut u8 {
+        unsafe { self.base.add(self.off) }
+    }
+}
+
+struct Ctx {
+    f: Syms,
+    /// destination arena (memcmp: second operand)
+    a: GuardArena,
+    /// source arena (memcmp: first operand)
+    s: GuardArena,
+    /// source pattern by operand index: neighbours within 251 bytes are distinct, and so are bytes 251*k apart
+    pat: Vec<u8>,
+    /// complement of `pat`: prefill of a destination, so a byte that is not written is always seen
+    npat: Vec<u8>,
+    /// canary by region index
+    cz: Vec<u8>,
+    exp: Vec<u8>,
+    exp2: Vec<u8>,
+    tmp: Vec<u8>,
+    case: String,
+}
+
+impl Ctx {
+    fn new(f: Syms, max_span: usize) -> Ctx {
+        let pages = (max_span + 2 * SLACK + 64) / 4096 + 2;
+        let a = GuardArena::new(pages);
+        let s = GuardArena::new(pages);
+        let cap = a.capacity() + 64;
+        let pat: Vec<u8> = (0..cap).map(|i| ((i % 251) + 7 * (i / 251)) as u8).collect();
+        let npat: Vec<u8> = pat.iter().map(|b| !b).collect();
+        let cz: Vec<u8> = (0..cap).map(|i| 0xA5u8 ^ ((i % 253) as u8).wrapping_mul(3)).collect();
+        Ctx { f, a, s, pat, npat, cz, exp: vec![0; cap], exp2: vec![0; cap], tmp: vec![0; cap], case: String::with_capacity(256) }
+    }
+}
+
+// ---------------------------------------------------------------------------
+// references: volatile byte loops, never a library call
+
+#[inline(never)]
+fn ref_copy(dst: &mut [u8], src: &[u8]) {
+    assert!(dst.len() == src.len());
+    for i in 0..src.len() {
+        unsafe { write_volatile(dst.as_mut_ptr().add(i), read_volatile(src.as_ptr().add(i))) }
+    }
+}
+#[inline(never)]
+fn ref_fill(dst: &mut [u8], b: u8) {
+    for i in 0..dst.len() {
+        unsafe { write_volatile(dst.as_mut_ptr().add(i), b) }
+    }
+}
+/// -1 / 0 / 1: bytes compared as `unsigned char`, first difference decides
+#[inline(never)]
+fn ref_cmp(a: &[u8], b: &[u8]) -> i32 {
+    for i in 0..a.len() {
+        let (x, y) = unsafe { (read_volatile(a.as_ptr().add(i)), read_volatile(b.as_ptr().add(i))) };
+        if x != y {
+            return if x < y { -1 } else { 1 };
+        }
+    }
+    0
+}
+fn first_diff(a: &[u8], b: &[u8]) -> Option<usize> {
+    if a == b {
+        return None;
+    }
+    a.iter().zip(b.iter()).position(|(x, y)| x != y)
+}
+
+fn path_class(n: usize, dst: usize, src: usize, backward: bool) -> &'static str {
+    if n < THRESHOLD {
+        return if backward { "backward:byte-loop" } else { "forward:byte-loop" };
+    }
+    // bytes consumed to align the destination, then the source's alignment decides the word helper
+    let src_mis = if backward {
+        let k = (dst + n) & (WORD - 1);
+        (src + n - k) & (WORD - 1)
+    } else {
+        let k = dst.wrapping_neg() & (WORD - 1);
+        (src + k) & (WORD - 1)
+    };
+    match (backward, src_mis == 0) {
+        (false, true) => "forward:aligned-words",
+        (false, false) => "forward:misaligned-words",
+        (true, true) => "backward:aligned-words",
+        (true, false) => "backward:misaligned-words",
+    }
+}
+
+// ---------------------------------------------------------------------------
+// one case of each operation
+
+fn begin(cx: &Ctx, r: &mut Report) {
+    r.eval();
+    r.nontrivial_unique();
+    set_case(&cx.case);
+}
+
+fn case_value(cx: &Ctx) -> Value {
+    serde_json::from_str(&cx.case).unwrap_or(Value::String(cx.case.clone()))
+}
+
+fn do_memcpy(cx: &mut Ctx, n: usize, dp: P, sp: P, r: &mut Report) {
+    use std::fmt::Write;
+    let dr = locate(&cx.a, dp, n);
+    let sr = locate(&cx.s, sp, n);
+    let (d, s) = (dr.bytes(), sr.bytes());
+    d.copy_from_slice(&cx.cz[..dr.len]);
+    d[dr.off..dr.off + n].copy_from_slice(&cx.npat[..n]);
+    s.copy_from_slice(&cx.cz[7..7 + sr.len]);
+    s[sr.off..sr.off + n].copy_from_slice(&cx.pat[..n]);
+    cx.exp[..dr.len].copy_from_slice(d);
+    ref_copy(&mut cx.exp[dr.off..dr.off + n], &s[sr.off..sr.off + n]);
+    cx.exp2[..sr.len].copy_from_slice(s);
+    cx.case.clear();
+    let _ = write!(
+        cx.case,
+        r#"{{"op":"memcpy","n":{n},"dp":"{}","dm":{},"sp":"{}","sm":{}}}"#,
+        dp.name(),
+        dp.mis(),
+        sp.name(),
+        sp.mis()
+    );
+    begin(cx, r);
+    let ret = unsafe { (cx.f.memcpy)(dr.ptr(), sr.ptr(), n) };
+    clear_case();
+    r.outcome(path_class(n, dr.ptr() as usize, sr.ptr() as usize, false));
+    let what = |cx: &Ctx| format!("memcpy(dest misaligned {}, src misaligned {}, n={n}) [{}]", dr.ptr() as usize & 15, sr.ptr() as usize & 15, cx.case);
+    if ret != dr.ptr() {
+        r.violation("C08:memcpy:wrong-return", format!("{}: returned dest{:+}", what(cx), ret as isize - dr.ptr() as isize), case_value(cx));
+    }
+    check_dest(cx, "memcpy", &what(cx), dr, n, None, r);
+    if let Some(i) = first_diff(s, &cx.exp2[..sr.len]) {
+        r.violation(
+            "C08:memcpy:source-modified",
+            format!("{}: byte {} relative to src changed from {:#04x} to {:#04x}", what(cx), i as isize - sr.off as isize, cx.exp2[i], s[i]),
+            case_value(cx),
+        );
+    }
+}
+
+/// Compare the destination window with `cx.exp`; `src_range`: region indices of a source that
+/// shares the window (memmove), to name a change there `source-modified`.
+fn check_dest(cx: &Ctx, op: &str, what: &str, dr: Region, n: usize, src_range: Option<(usize, usize)>, r: &mut Report) {
+    let d = dr.bytes();
+    let e = &cx.exp[..dr.len];
+    if let Some(i) = first_diff(&d[dr.off..dr.off + n], &e[dr.off..dr.off + n]) {
+        r.violation(
+            &format!("C08:{op}:wrong-bytes"),
+            format!("{what}: dest[{i}] = {:#04x}, the C definition gives {:#04x}", d[dr.off + i], e[dr.off + i]),
+            case_value(cx),
+        );
+    }
+    let outside = first_diff(&d[..dr.off], &e[..dr.off]).or_else(|| first_diff(&d[dr.off + n..], &e[dr.off + n..]).map(|i| i + dr.off + n));
+    if let Some(i) = outside {
+        let rel = i as isize - dr.off as isize;
+        let in_src = src_range.is_some_and(|(lo, hi)| i >= lo && i < hi);
+        let kind = if in_src { "source-modified" } else { "redzone-written" };
+        r.violation(
+            &format!("C08:{op}:{kind}"),
+            format!(
+                "{what}: byte at dest{rel:+} (outside the destination [0,{n}){}) changed from {:#04x} to {:#04x}",
+                if in_src { ", inside the source" } else { "" },
+                e[i],
+                d[i]
+            ),
+            case_value(cx),
+        );
+    }
+}
+
+/// `d` = dest - src.  `p`: placement of the union span of both operands; for `Mid(dm)` the
+/// destination's misalignment is `dm`.
+fn do_memmove(cx: &mut Ctx, n: usize, p: P, d: isize, r: &mut Report) {
+    use std::fmt::Write;
+    let span = n + d.unsigned_abs();
+    let mut reg = match p {
+        P::Mid(dm) => {
+            let lo_mis = if d >= 0 { (dm as isize - d).rem_euclid(16) as usize } else { dm };
+            locate(&cx.a, P::Mid(lo_mis), span)
+        }
+        other => locate(&cx.a, other, span),
+    };
+    let (src_off, dst_off) = if d >= 0 { (reg.off, reg.off + d as usize) } else { (reg.off + d.unsigned_abs(), reg.off) };
+    let w = reg.bytes();
+    w.copy_from_slice(&cx.pat[..reg.len]);
+    cx.exp[..reg.len].copy_from_slice(w);
+    {
+        let (exp, tmp) = (&mut cx.exp, &mut cx.tmp);
+        ref_copy(&mut tmp[..n], &exp[src_off..src_off + n]);
+        ref_copy(&mut exp[dst_off..dst_off + n], &tmp[..n]);
+    }
+    cx.case.clear();
+    let _ = write!(cx.case, r#"{{"op":"memmove","n":{n},"p":"{}","dm":{},"d":{d}}}"#, p.name(), p.mis());
+    begin(cx, r);
+    let (dptr, sptr) = unsafe { (reg.base.add(dst_off), reg.base.add(src_off)) };
+    let ret = unsafe { (cx.f.memmove)(dptr, sptr, n) };
+    clear_case();
+    let backward = d >= 0 && (d as usize) < n;
+    r.outcome(path_class(n, dptr as usize, sptr as usize, backward));
+    r.outcome(if d == 0 {
+        "overlap:same"
+    } else if d.unsigned_abs() >= n {
+        "overlap:disjoint"
+    } else if d > 0 {
+        "overlap:dest-above-src"
+    } else {
+        "overlap:dest-below-src"
+    });
+    let what = format!("memmove(dest misaligned {}, src = dest{:+}, n={n}) [{}]", dptr as usize & 15, -d, cx.case);
+    if ret != dptr {
+        r.violation("C08:memmove:wrong-return", format!("{what}: returned dest{:+}", ret as isize - dptr as isize), case_value(cx));
+    }
+    reg.off = dst_off;
+    check_dest(cx, "memmove", &what, reg, n, Some((src_off, src_off + n)), r);
+}
+
+fn do_memset(cx: &mut Ctx, n: usize, p: P, c: c_int, r: &mut Report) {
+    use std::fmt::Write;
+    let dr = locate(&cx.a, p, n);
+    let d = dr.bytes();
+    let b = c as u8;
+    d.copy_from_slice(&cx.cz[..dr.len]);
+    d[dr.off..dr.off + n].fill(!b);
+    cx.exp[..dr.len].copy_from_slice(d);
+    ref_fill(&mut cx.exp[dr.off..dr.off + n], b);
+    cx.case.clear();
+    let _ = write!(cx.case, r#"{{"op":"memset","n":{n},"p":"{}","dm":{},"c":{c}}}"#, p.name(), p.mis());
+    begin(cx, r);
+    let ret = unsafe { (cx.f.memset)(dr.ptr(), c, n) };
+    clear_case();
+    r.outcome(if n < THRESHOLD { "memset:byte-loop" } else { "memset:words" });
+    let what = format!("memset(s misaligned {}, c={c:#x}, n={n}) [{}]", dr.ptr() as usize & 15, cx.case);
+    if ret != dr.ptr() {
+        r.violation("C08:memset:wrong-return", format!("{what}: returned s{:+}", ret as isize - dr.ptr() as isize), case_value(cx));
+    }
+    check_dest(cx, "memset", &what, dr, n, None, r);
+}
+
+/// `pos`: index of the first differing byte, or -1 for equal operands; there the first
+/// operand holds `x`, the second `y`.  `tail`: every later byte differs the other way round
+/// (so only the FIRST difference gives the right sign).  Bytes just outside `[0,n)` differ
+/// too (so looking past either end breaks the equal case).  Both argument orders are called.
+#[allow(clippy::too_many_arguments)]
+fn do_cmp(cx: &mut Ctx, op: &'static str, n: usize, pos: isize, x: u8, y: u8, tail: bool, pa: P, pb: P, r: &mut Report) {
+    use std::fmt::Write;
+    let ar = locate(&cx.s, pa, n);
+    let br = locate(&cx.a, pb, n);
+    let (a, b) = (ar.bytes(), br.bytes());
+    a.copy_from_slice(&cx.cz[..ar.len]);
+    b.copy_from_slice(&cx.npat[..br.len]);
+    // make sure the bytes adjacent to the operands differ pairwise
+    for k in 1..=8usize {
+        if ar.off >= k && br.off >= k && a[ar.off - k] == b[br.off - k] {
+            b[br.off - k] = !a[ar.off - k];
+        }
+        let (ia, ib) = (ar.off + n + k - 1, br.off + n + k - 1);
+        if ia < ar.len && ib < br.len && a[ia] == b[ib] {
+            b[ib] = !a[ia];
+        }
+    }
+    a[ar.off..ar.off + n].copy_from_slice(&cx.pat[..n]);
+    b[br.off..br.off + n].copy_from_slice(&cx.pat[..n]);
+    if pos >= 0 {
+        let q = pos as usize;
+        a[ar.off + q] = x;
+        b[br.off + q] = y;
+        if tail {
+            a[ar.off + q + 1..ar.off + n].fill(y);
+            b[br.off + q + 1..br.off + n].fill(x);
+        }
+    }
+    let want = ref_cmp(&a[ar.off..ar.off + n], &b[br.off..br.off + n]);
+    cx.case.clear();
+    let _ = write!(
+        cx.case,
+        r#"{{"op":"{op}","n":{n},"pos":{pos},"x":{x},"y":{y},"tail":{tail},"pa":"{}","am":{},"pb":"{}","bm":{}}}"#,
+        pa.name(),
+        pa.mis(),
+        pb.name(),
+        pb.mis()
+    );
+    let f = if op == "memcmp" { cx.f.memcmp } else { cx.f.bcmp };
+    for swapped in [false, true] {
+        begin(cx, r);
+        let (got, want) = if swapped { (unsafe { f(br.ptr(), ar.ptr(), n) }, -want) } else { (unsafe { f(ar.ptr(), br.ptr(), n) }, want) };
+        clear_case();
+        r.outcome(match (op == "memcmp", want) {
+            (true, -1) => "memcmp:less",
+            (true, 0) => "memcmp:equal",
+            (true, _) => "memcmp:greater",
+            (false, 0) => "bcmp:equal",
+            (false, _) => "bcmp:different",
+        });
+        let ok = if op == "memcmp" { got.signum() == want } else { (got == 0) == (want == 0) };
+        if !ok {
+            let (key, law) = if op == "memcmp" {
+                ("C08:memcmp:wrong-sign", format!("sign {want}"))
+            } else {
+                ("C08:bcmp:wrong-zeroness", (if want == 0 { "zero" } else { "non-zero" }).to_string())
+            };
+            r.violation(
+                key,
+                format!(
+                    "{op}({}, n={n}) = {got}, the C definition gives {law}; first difference at {pos} ({}), operands misaligned {}/{} [{}]",
+                    if swapped { "second, first" } else { "first, second" },
+                    if pos < 0 { "none".to_string() } else { format!("{x:#04x} vs {y:#04x}") },
+                    ar.ptr() as usize & 15,
+                    br.ptr() as usize & 15,
+                    cx.case
+                ),
+                case_value(cx),
+            );
+        }
+    }
+}
+
+// ---------------------------------------------------------------------------
+// enumeration units: one (operation, n), split in the placements with canaries (`Mode::Canary`,
+// cannot fault unless the code under test runs wild) and those with an operand against an
+// inaccessible page (`Mode::Guard`, an out-of-range access is a fault that ends the shard).
+// The two run in different shards so that a fault does not hide the canary findings.
+
+const GUARDS: [P; 2] = [P::End, P::Start];
+
+#[derive(Clone, Copy, PartialEq, Debug)]
+enum Mode {
+    Canary,
+    Guard,
+}
+
+fn unit_memcpy(cx: &mut Ctx, n: usize, mode: Mode, mis: std::ops::Range<usize>, r: &mut Report) {
+    if mode == Mode::Canary {
+        for dm in mis {
+            for sm in 0..16 {
+                do_memcpy(cx, n, P::Mid(dm), P::Mid(sm), r);
+            }
+        }
+        return;
+    }
+    for g in GUARDS {
+        for m in mis.clone() {
+            do_memcpy(cx, n, P::Mid(m), g, r);
+            do_memcpy(cx, n, g, P::Mid(m), r);
+        }
+        if mis.start == 0 {
+            for g2 in GUARDS {
+                do_memcpy(cx, n, g, g2, r);
+            }
+        }
+    }
+}
+
+fn unit_memmove(cx: &mut Ctx, n: usize, dists: &[isize], mode: Mode, mis: std::ops::Range<usize>, r: &mut Report) {
+    for &d in dists {
+        if mode == Mode::Canary {
+            for dm in mis.clone() {
+                do_memmove(cx, n, P::Mid(dm), d, r);
+            }
+        } else {
+            for g in GUARDS {
+                do_memmove(cx, n, g, d, r);
+            }
+        }
+    }
+}
+
+fn all_dists(n: usize) -> Vec<isize> {
+    // simplest first: 0, +1, -1, +2, ...
+    let m = (n + 16) as isize;
+    let mut v = vec![0];
+    for k in 1..=m {
+        v.push(k);
+        v.push(-k);
+    }
+    v
+}
+
+fn ladder_dists(n: usize) -> Vec<isize> {
+    let n = n as isize;
+    let mut v: Vec<isize> = vec![0];
+    for k in [1, 7, 8, 9, 16, n / 2, n - 9, n - 8, n - 1, n, n + 1, n + 16] {
+        for s in [k, -k] {
+            if !v.contains(&s) {
+                v.push(s);
+            }
+        }
+    }
+    v
+}
+
+/// `wide`: also pass the fill byte with non-zero high bits and as a negative int
+/// (the int argument is converted to unsigned char: high bits must be ignored)
+fn unit_memset(cx: &mut Ctx, n: usize, fills: &[u8], wide: bool, mode: Mode, mis: std::ops::Range<usize>, r: &mut Report) {
+    for &b in fills {
+        let cs = [b as c_int, (b as u32 | 0x5a3c_9600) as c_int, b as c_int - 256];
+        for &c in &cs[..if wide { 3 } else { 1 }] {
+            if mode == Mode::Canary {
+                for dm in mis.clone() {
+                    do_memset(cx, n, P::Mid(dm), c, r);
+                }
+            } else {
+                for g in GUARDS {
+                    do_memset(cx, n, g, c, r);
+                }
+            }
+        }
+    }
+}
+
+fn unit_cmp(cx: &mut Ctx, n: usize, positions: &[isize], pairs: &[(u8, u8)], mis: &[usize], mode: Mode, r: &mut Report) {
+    for op in ["memcmp", "bcmp"] {
+        for &pos in positions {
+            let pairs: &[(u8, u8)] = if pos < 0 { &[(0, 0)] } else { pairs };
+            for &(x, y) in pairs {
+                for tail in [false, true] {
+                    if tail && (pos < 0 || pos as usize + 1 >= n) {
+                        continue;
+                    }
+                    if mode == Mode::Canary {
+                        for &am in mis {
+                            for &bm in mis {
+                                do_cmp(cx, op, n, pos, x, y, tail, P::Mid(am), P::Mid(bm), r);
+                            }
+                        }
+                    } else {
+                        for g in GUARDS {
+                            for g2 in GUARDS {
+                                do_cmp(cx, op, n, pos, x, y, tail, g, g2, r);
+                            }
+                        }
+                    }
+                }
+            }
+        }
+    }
+}
+
+/// Cut `0..=nmax` into at most `k` contiguous ranges of about equal `cost`, smallest n first.
+fn chunks(nmax: usize, k: usize, cost: impl Fn(usize) -> u64) -> Vec<(usize, usize)> {
+    let total: u64 = (0..=nmax).map(&cost).sum();
+    let mut out = Vec::new();
+    let (mut lo, mut acc, mut done) = (0usize, 0u64, 0u64);
+    for n in 0..=nmax {
+        acc += cost(n);
+        let left = (k - out.len()) as u64;
+        if n == nmax || (left > 1 && acc * left >= total - done) {
+            out.push((lo, n));
+            lo = n + 1;
+            done += acc;
+            acc = 0;
+        }
+    }
+    out
+}
+
+fn all_positions(n: usize) -> Vec<isize> {
+    let mut v = vec![-1];
+    v.extend(0..n as isize);
+    v
+}
+
+fn ladder_positions(n: usize) -> Vec<isize> {
+    let n = n as isize;
+    let mut v = vec![-1];
+    for p in [0, 1, 7, 8, n / 2, n - 9, n - 2, n - 1] {
+        if p >= 0 && p < n && !v.contains(&p) {
+            v.push(p);
+        }
+    }
+    v
+}
+
+// ---------------------------------------------------------------------------
+
+#[derive(Clone, Copy, PartialEq, Debug)]
+enum Op {
+    Memcpy,
+    Memmove,
+    Memset,
+    Cmp,
+}
+
+struct Bounds {
+    n_copy: usize,
+    n_move: usize,
+    n_set: usize,
+    n_cmp: usize,
+    fills: Vec<u8>,
+}
+
+fn c08(args: &Args, ld: &Loaded) -> Report {
+    let mut pre = Report::new();
+    let thr = source_threshold(&ld.src_path);
+    let window = match thr {
+        Some(t) => 2 * t + WORD,
+        None => {
+            pre.cap(format!("WORD_COPY_THRESHOLD not found in {}: the exhaustive window cannot be tied to the code's thresholds", ld.src_path));
+            2 * THRESHOLD + WORD
+        }
+    };
+    if thr.is_some_and(|t| t != THRESHOLD) {
+        pre.note(format!("threshold of the compiled source is {:?} (harness was written for {THRESHOLD}); window widened accordingly", thr));
+    }
+    // the exhaustive window always covers 0..=2*threshold+word and (at least) as much again
+    let floor = 2 * window;
+    let b = if args.thorough {
+        Bounds { n_copy: floor.max(4200), n_move: floor.max(1024), n_set: floor.max(1024), n_cmp: floor.max(256), fills: (0..=255).collect() }
+    } else {
+        Bounds { n_copy: floor, n_move: floor, n_set: floor, n_cmp: floor.min(64).max(window + 8), fills: FILLS_QUICK.to_vec() }
+    };
+    let f = ld.syms;
+    let all_mis: Vec<usize> = (0..16).collect();
+
+    // exhaustive part: per operation, contiguous ranges of n of about equal cost, smallest n first
+    // (so the case kept under a violation key is the one with the smallest n)
+    let k = if args.thorough { 48 } else { 12 };
+    let nfill = b.fills.len() as u64;
+    let mut items = Vec::new();
+    for mode in [Mode::Canary, Mode::Guard] {
+        let k = if mode == Mode::Canary { k } else { k / 4 };
+        for (lo, hi) in chunks(b.n_copy, k, |n| 256 * (n as u64 + 300)) {
+            items.push(isolated(format!("memcpy-{mode:?}-{lo}..={hi}"), move || {
+                let mut r = Report::new();
+                let mut cx = Ctx::new(f, hi + 64);
+                for n in lo..=hi {
+                    unit_memcpy(&mut cx, n, mode, 0..16, &mut r);
+                }
+                if lo == 0 {
+                    r.sample(json!({"op":"memcpy","n":17,"dp":"mid","dm":3,"sp":"mid","sm":5}));
+                    r.sample(json!({"op":"memcpy","n":33,"dp":"mid","dm":9,"sp":"end","sm":0}));
+                }
+                r
+            }));
+        }
+        for (lo, hi) in chunks(b.n_move, k, |n| (2 * n as u64 + 33) * 16 * (3 * n as u64 + 400)) {
+            items.push(isolated(format!("memmove-{mode:?}-{lo}..={hi}"), move || {
+                let mut r = Report::new();
+                let mut cx = Ctx::new(f, 2 * hi + 64);
+                for n in lo..=hi {
+                    unit_memmove(&mut cx, n, &all_dists(n), mode, 0..16, &mut r);
+                }
+                if lo == 0 {
+                    r.sample(json!({"op":"memmove","n":24,"p":"mid","dm":1,"d":5}));
+                    r.sample(json!({"op":"memmove","n":40,"p":"end","dm":0,"d":-3}));
+                }
+                r
+            }));
+        }
+        for (lo, hi) in chunks(b.n_set, k, |n| nfill * 48 * (n as u64 + 300)) {
+            let fills = b.fills.clone();
+            items.push(isolated(format!("memset-{mode:?}-{lo}..={hi}"), move || {
+                let mut r = Report::new();
+                let mut cx = Ctx::new(f, hi + 64);
+                for n in lo..=hi {
+                    unit_memset(&mut cx, n, &fills, true, mode, 0..16, &mut r);
+                }
+                if lo == 0 {
+                    r.sample(json!({"op":"memset","n":33,"p":"mid","dm":7,"c":128}));
+                }
+                r
+            }));
+        }
+        for (lo, hi) in chunks(b.n_cmp, k, |n| (n as u64 + 1) * (n as u64 + 300)) {
+            let all_mis = all_mis.clone();
+            items.push(isolated(format!("memcmp+bcmp-{mode:?}-{lo}..={hi}"), move || {
+                let mut r = Report::new();
+                let mut cx = Ctx::new(f, hi + 64);
+                for n in lo..=hi {
+                    unit_cmp(&mut cx, n, &all_positions(n), PAIRS, &all_mis, mode, &mut r);
+                }
+                if lo == 0 {
+                    r.sample(json!({"op":"memcmp","n":9,"pos":4,"x":127,"y":128,"tail":true,"pa":"mid","am":2,"pb":"mid","bm":11}));
+                    r.sample(json!({"op":"bcmp","n":16,"pos":-1,"x":0,"y":0,"tail":false,"pa":"end","am":0,"pb":"end","bm":0}));
+                }
+                r
+            }));
+        }
+    }
+
+    // ladder part (a fixed sample of large sizes, NOT exhaustive in n): shards per (op, n[, quarter of the misalignments])
+    let lad_mis: Vec<usize> = vec![0, 1, 7, 8, 15];
+    for &n in LADDER {
+        let quarters: &[(usize, usize)] = if n >= 65535 { &[(0, 4), (4, 8), (8, 12), (12, 16)] } else { &[(0, 16)] };
+        for (op, lim) in [(Op::Memcpy, b.n_copy), (Op::Memmove, b.n_move), (Op::Memset, b.n_set), (Op::Cmp, b.n_cmp)] {
+            if n <= lim {
+                continue; // already inside this operation's exhaustive window
+            }
+            for mode in [Mode::Canary, Mode::Guard] {
+                for &(lo, hi) in quarters {
+                    if lo != 0 && (op == Op::Cmp || (mode == Mode::Guard && op != Op::Memcpy)) {
+                        continue;
+                    }
+                    let lad_mis = lad_mis.clone();
+                    items.push(isolated(format!("ladder-{op:?}-{mode:?}-{n}-{lo}"), move || {
+                        let mut r = Report::new();
+                        let mut cx = Ctx::new(f, 2 * n + 64);
+                        match op {
+                            Op::Memcpy => unit_memcpy(&mut cx, n, mode, lo..hi, &mut r),
+                            Op::Memmove => unit_memmove(&mut cx, n, &ladder_dists(n), mode, lo..hi, &mut r),
+                            Op::Memset => unit_memset(&mut cx, n, FILLS_QUICK, false, mode, lo..hi, &mut r),
+                            Op::Cmp => unit_cmp(&mut cx, n, &ladder_positions(n), &[(0, 1), (255, 0)], &lad_mis, mode, &mut r),
+                        }
+                        r
+                    }));
+                }
+            }
+        }
+    }
+
+    if std::env::var_os("H_MEM_TIMING").is_some() {
+        items = items
+            .into_iter()
+            .map(|it| {
+                let name = it.name.clone();
+                let work = it.work;
+                isolated(it.name, move || {
+                    let t = now();
+                    let r = work();
+                    eprintln!("{:8.3}s {:>10} calls  {name}", t.elapsed().as_secs_f64(), r.evaluations);
+                    r
+                })
+            })
+            .collect();
+    }
+    let mut r = run_isolated(items, &args.out, "C08");
+    r.merge(pre);
+    for n in &ld.notes {
+        r.note(n.clone());
+    }
+    r.note(format!("code under test: {} compiled from {}", ld.so_path, ld.src_path));
+    if ld.src_path != REPO_SRC {
+        // only happens when memsyms was built with MEMSYMS_SRC set (defect-injection demonstrations)
+        r.cap(format!("the object under test was compiled from {} instead of {REPO_SRC}: this run says nothing about the repository", ld.src_path));
+    }
+    r.rule = format!(
+        "EXHAUSTIVE part: memcpy every n in 0..={} x every destination misalignment 0..=15 x every source misalignment 0..=15 (operands in separate buffers with canaries), \
+         plus each operand against a guard page (ending at / starting after a PROT_NONE page) with the other at every misalignment; \
+         memmove every n in 0..={} x every destination misalignment x every distance dest-src in -(n+16)..=n+16 inside one buffer, plus the union span against a guard page at either side; \
+         memset every n in 0..={} x every misalignment (+ both guard placements) x fill bytes {} each passed as b, b|0x5a3c9600 and b-256; \
+         memcmp and bcmp every n in 0..={} x every position of the first differing byte (and none) x byte pairs {{0/1,0/255,127/128,255/0}} x {{identical tail, tail differing the other way}} \
+         x every misalignment pair 0..=15 x 0..=15 (+ four guard placements), both argument orders. The compiled source has WORD_COPY_THRESHOLD={:?}, word={WORD}: 2*threshold+word={window}. \
+         LADDER part (a fixed sample, not exhaustive in n): n in {:?} (those beyond the exhaustive window) with memcpy at all 16x16 misalignments + guard placements, \
+         memmove at all 16 destination misalignments x distances {{0,+-1,+-7,+-8,+-9,+-16,+-n/2,+-(n-9),+-(n-8),+-(n-1),+-n,+-(n+1),+-(n+16)}}, memset at all 16 misalignments x fills {{0,1,0x7f,0x80,0xff}}, \
+         memcmp/bcmp at misalignments {{0,1,7,8,15}}^2, positions {{none,0,1,7,8,n/2,n-9,n-2,n-1}}, pairs {{0/1,255/0}}. \
+         Every call of a function under test is one evaluation; each (operation, parameters, placement, argument order) is generated exactly once, all are non-trivial \
+         (n=0 checks that nothing is touched).",
+        b.n_copy,
+        b.n_move,
+        b.n_set,
+        if b.fills.len() == 256 { "0..=255".to_string() } else { format!("{:02x?}", b.fills) },
+        b.n_cmp,
+        thr,
+        LADDER
+    );
+    r.bound("n_max_memcpy", b.n_copy);
+    r.bound("n_max_memmove", b.n_move);
+    r.bound("n_max_memset", b.n_set);
+    r.bound("n_max_memcmp_bcmp", b.n_cmp);
+    r.bound("threshold_window", window);
+    r.bound("fill_bytes", b.fills.len());
+    r.bound("ladder", json!(LADDER));
+    r.bound("red_zone_bytes", RED);
+    r
+}
+
+// ---------------------------------------------------------------------------
+
+fn run_case(cx: &mut Ctx, v: &Value, r: &mut Report) {
+    let u = |k: &str| v[k].as_u64().unwrap_or(0) as usize;
+    let i = |k: &str| v[k].as_i64().unwrap_or(0);
+    let s = |k: &str| v[k].as_str().unwrap_or("mid").to_string();
+    let n = u("n");
+    match v["op"].as_str().unwrap_or("") {
+        "memcpy" => do_memcpy(cx, n, P::parse(&s("dp"), u("dm")), P::parse(&s("sp"), u("sm")), r),
+        "memmove" => do_memmove(cx, n, P::parse(&s("p"), u("dm")), i("d") as isize, r),
+        "memset" => do_memset(cx, n, P::parse(&s("p"), u("dm")), i("c") as c_int, r),
+        op @ ("memcmp" | "bcmp") => {
+            let op = if op == "memcmp" { "memcmp" } else { "bcmp" };
+            do_cmp(
+                cx,
+                op,
+                n,
+                i("pos") as isize,
+                u("x") as u8,
+                u("y") as u8,
+                v["tail"].as_bool().unwrap_or(false),
+                P::parse(&s("pa"), u("am")),
+                P::parse(&s("pb"), u("bm")),
+                r,
+            )
+        }
+        other => panic!("replay: unknown op {other:?}"),
+    }
+}
+
+fn replay(v: Value, ld: &Loaded) -> Report {
+    println!("replaying {v} against {} ({})", ld.so_path, ld.src_path);
+    let f = ld.syms;
+    let n = v["n"].as_u64().unwrap_or(0) as usize;
+    let d = v["d"].as_i64().unwrap_or(0).unsigned_abs() as usize;
+    let out = std::env::temp_dir().join(format!("h-mem-replay-{}", std::process::id())).to_string_lossy().into_owned();
+    let items = vec![isolated("replay", move || {
+        let mut r = Report::new();
+        let mut cx = Ctx::new(f, 2 * n + d + 64);
+        run_case(&mut cx, &v, &mut r);
+        r
+    })];
+    let r = run_isolated(items, &out, "C08");
+    for v in r.violations.values() {
+        println!("VIOLATED {}: {}", v.key, v.desc);
+    }
+    if r.violations.is_empty() {
+        println!("case passed ({} calls)", r.evaluations);
+    }
+    r
+}
+
+fn main() {
+    let args = parse_args();
+    install_panic_hook();
+    let ld = load();
+    if let Some(p) = &args.replay {
+        let r = replay(read_replay(p), &ld);
+        println!("{}", serde_json::to_string_pretty(&r.to_json()).unwrap());
+        std::process::exit(if r.violations.is_empty() { 0 } else { 1 });
+    }
+    let phase = args.phase.clone().unwrap_or_else(|| "c08".into());
+    let r = match phase.as_str() {
+        "c08" => c08(&args, &ld),
+        _ => panic!("unknown phase"),
+    };
+    r.write(&args.out);
+}
